@@ -43,6 +43,25 @@ GARBAGE = {
     "wrongtypes": b'{"gel": {"edges": [1, "x", null], "nodes": 5}, "store": [1, 2]}',
 }
 
+def _pr34_garbage(kind: str, d: str) -> None:
+    """unusable files in the header+payload format of the real delta-capable writer: a delta whose baseline (and full
+    sibling) is gone, and a readable header followed by a payload that is valid JSON but not an object"""
+    from clematis.engine import snapshot as S
+    os.makedirs(d, exist_ok=True)
+    if kind == "pr34_orphan_delta":
+        S.write_snapshot_auto(d, etag_from=None, etag_to="41", payload={"version_etag": "41", "store": {"weights": []}}, compression="none", delta_mode=False)
+        S.write_snapshot_auto(d, etag_from="41", etag_to="42", payload={"version_etag": "42", "store": {"weights": []}, "x": 1}, compression="none", delta_mode=True)
+        for n in os.listdir(d):
+            if "41" in n:
+                os.unlink(os.path.join(d, n))
+    else:
+        p, _ = S.write_snapshot_auto(d, etag_from=None, etag_to="18", payload={"version_etag": "18"}, compression="none", delta_mode=False)
+        with open(p, "rb") as f:
+            head = f.read().split(b"\n", 1)[0]
+        with open(p, "wb") as f:
+            f.write(head + b"\n[1, 2, 3]\n")
+
+
 # site -> what makes it live (cfg / session options) and the idle baseline
 SITES = {
     "boot_raise": {}, "boot_garbage": {},
@@ -243,8 +262,11 @@ def run_case(case) -> List[Tuple[str, str]]:
                 os.makedirs(s.snapdir, exist_ok=True)
                 # (in the live cases the garbage is a numbered snap_* file: discovery prefers it, and the turn's own
                 # state_A.json snapshot does not overwrite it, so every later boot attempt meets it again)
-                with open(os.path.join(s.snapdir, "snap_000007.json" if case.get("live") else "state_A.json"), "wb") as f:
-                    f.write(GARBAGE[case["garbage"]])
+                if str(case["garbage"]).startswith("pr34_"):
+                    _pr34_garbage(case["garbage"], s.snapdir)
+                else:
+                    with open(os.path.join(s.snapdir, "snap_000007.json" if case.get("live") else "state_A.json"), "wb") as f:
+                        f.write(GARBAGE[case["garbage"]])
             return s
         sF, sI = mk("faulty", cfg_f, True), mk("idle", cfg_i, False)
         if case.get("llm_junk"):
@@ -388,7 +410,7 @@ def check(run) -> None:
     n = 0
     for s in names:
         if s == "boot_garbage":
-            for g in sorted(GARBAGE):
+            for g in sorted(GARBAGE) + ["pr34_orphan_delta", "pr34_foreign_payload"]:
                 add([s], "RuntimeError", g)
             continue
         for e in (excs if not q else [excs[n % len(excs)], excs[(n + 3) % len(excs)], excs[(n + 5) % len(excs)]]):
